@@ -66,7 +66,11 @@ def random_behaviours(seed, nruns, nops, nkeys=12, hashes=(1, 2, 17, 300), pids=
                 else:
                     now = rnd.randrange(0, 8)
                 ops.append({"op": "clean", "now": now, "export": rnd.random() < 0.8})
-        out.append({"run": first_run + r, "cfg": {"max_resp": max_resp, "mode": "off"}, "ops": ops})
+        out.append({"run": first_run + r,
+                    "cfg": {"max_resp": max_resp, "mode": "off",
+                            # the storage takes different paths with per-client statistics off (the default)
+                            "peer_clients": True if pid_bias else rnd.random() < 0.5},
+                    "ops": ops})
     return out
 
 
